@@ -9,6 +9,9 @@ package main
 import (
 	"fmt"
 	"os"
+	_ "time/tzdata"
+
+	_ "verif/internal/cronmc"
 )
 
 func main() {
